@@ -589,6 +589,11 @@ ssize_t __wrap_read(int fd, void *buf, size_t len) {
     }
     if (e->kind == FdEnt::CAN) {
         w.sched_point();
+        if (w.can_read0_p > 0 && w.rng_net.chance(w.can_read0_p)) {
+            w.count("fault.can_read0");
+            w.log("can-read0", (uint64_t)fd);
+            return 0;
+        }
         while (e->canq.empty()) {
             w.block_on({fd});
             e = w.fd(fd);
